@@ -34,6 +34,8 @@ func runC11(c *Ctx) {
 	defer c11HandOverBuffer(c)
 	c.Rule("C11.O6", "HTTP/2 graceful GOAWAY carries the highest accepted stream id; later HEADERS are ignored; one GOAWAY", 3)
 	defer c11GoAway(c)
+	c.Rule("C11.O7", "frames for streams refused by the GOAWAY are discarded, never answered with a connection error", 1)
+	defer c11RefusedStreams(c)
 	c.NotDecided = append(c.NotDecided, "that no request on a new, handed-over or in-flight connection fails around SIGTERM/SIGHUP (cross-process, kernel and timing dependent)", "fd passing over the unix socket, inheritance of listeners by the new process", "HTTP/2 GOAWAY and keep-alive draining")
 
 	named := func(n string) func(cc *ssa.CallCommon) bool {
@@ -444,4 +446,68 @@ func onlyFromField(v ssa.Value, field string, d int) bool {
 		return onlyFromField(x.X, field, d+1)
 	}
 	return false
+}
+
+// c11RefusedStreams (O7): frames for streams MOSN refused with its GOAWAY are discarded, not treated as protocol errors.
+// After a graceful GOAWAY the ignored HEADERS do not advance maxClientStreamID; a client cancels such a stream when it
+// reads the GOAWAY (RST_STREAM) or still has DATA for it on the wire. If those frames reach the per-type handlers they
+// hit "frame on an idle stream" -> connection error -> the connection, and every request legitimately in flight on it,
+// is killed by the shutdown that promised to let them finish. Clause (path-sensitive over two atoms, inGoAway and
+// StreamID > maxClientStreamID): no feasible path reaches a process* handler call in HandleFrame with both possibly true.
+func c11RefusedStreams(c *Ctx) {
+	fn := c.M("pkg/module/http2", "MServerConn", "HandleFrame")
+	if fn == nil {
+		c.Unresolved("C11.O7", "MServerConn.HandleFrame")
+		return
+	}
+	handlers := map[*ssa.BasicBlock]bool{}
+	n := 0
+	for _, cs := range callsIn(fn, false, func(cc *ssa.CallCommon) bool { return strings.HasPrefix(methodName(cc), "process") }) {
+		handlers[cs.Instr.Block()] = true
+		n++
+	}
+	if n < 5 {
+		c.Unresolved("C11.O7", fmt.Sprintf("process* calls in HandleFrame (found %d)", n))
+		return
+	}
+	classify := func(cond ssa.Value) (int, bool) {
+		if _, f, _, ok := loadedField(cond); ok && f == "inGoAway" {
+			return 1, true
+		}
+		if bo, ok := cond.(*ssa.BinOp); ok {
+			_, fy, _, oky := loadedField(bo.Y)
+			_, fx, _, okx := loadedField(bo.X)
+			isID := func(v ssa.Value) bool {
+				if _, f, _, ok := loadedField(v); ok && f == "StreamID" {
+					return true
+				}
+				if f, ok := v.(*ssa.Field); ok {
+					_, name, _, _ := fieldAddrInfo(f)
+					return name == "StreamID"
+				}
+				return false
+			}
+			switch {
+			case oky && fy == "maxClientStreamID" && isID(bo.X):
+				switch bo.Op {
+				case token.GTR:
+					return 2, true
+				case token.LEQ:
+					return 2, false
+				}
+			case okx && fx == "maxClientStreamID" && isID(bo.Y):
+				switch bo.Op {
+				case token.LSS:
+					return 2, true
+				case token.GEQ:
+					return 2, false
+				}
+			}
+		}
+		return 0, false
+	}
+	bad := feasibleState(fn, classify, func(b *ssa.BasicBlock, a1, a2 int8) bool {
+		return handlers[b] && a1 != 2 && a2 != 2
+	})
+	c.Check("C11.O7", funcKey(fn)+":refused-stream-frames-discarded", fn.Pos(), !bad, "while in GOAWAY, frames for streams above the advertised last stream id never reach the per-type handlers", "after a graceful GOAWAY a frame for a stream MOSN refused (RST_STREAM from the cancelling client, late DATA) reaches the per-type handlers, is answered with a connection error and the connection is closed: requests in flight on it fail because of the shutdown")
 }
